@@ -304,6 +304,19 @@ func h2cExtraCases(c *mon.Ctx, fns []string) []*h2cCase {
 		out = append(out, cs)
 	}
 
+	// tags that begin like strings the RFC (or the library) reserves, and tags made of one repeated byte
+	for i, pre := range []string{"H2C-OVERSIZE-DST-", "H2C-OVERSIZE-DST-QUUX-V01-CS02-with-secp256k1_XMD:SHA-256_SSWU_RO_", "QUUX-V01-CS02-with-", "secp256k1_XMD:SHA-256_SSWU_RO_", "secp256k1_XMD:SHA-256_SSWU_NU_suffix"} {
+		for j, fn := range fns {
+			out = append(out, &h2cCase{Fn: fn, Msg: mon.H(rr.Bytes(7 + i)), Dst: mon.H([]byte(pre)), Layout: h2cLayouts[(i+j)%len(h2cLayouts)], Class: "reserved-prefix"})
+		}
+	}
+
+	for i, b := range []byte{0x00, 0xff, 0x20, 'A', 0x80} {
+		for j, n := range []int{1, 16, 33, 255, 256} {
+			out = append(out, &h2cCase{Fn: fns[(i+j)%len(fns)], Msg: mon.H(rr.Bytes(3)), Dst: mon.H(bytes.Repeat([]byte{b}, n)), Layout: "exact", Class: "uniform-tag"})
+		}
+	}
+
 	// the package's own exported suite identifiers as tags, for every function
 	for i, suite := range []string{secp256k1.H2CSECP256K1, secp256k1.E2CSECP256K1} {
 		for j, fn := range fns {
